@@ -48,34 +48,42 @@ def value_classes(ctx):
 
 
 def classify_eq(cls, m):
-    """-> (kind, detail): identity | structural(field) | numeric | rendered | unknown"""
+    """-> (kind, detail): identity | structural(field) | numeric | rendered | unknown.
+    Works on the decision list of the method (which outcomes are returned under which branch facts), so a guard with
+    early return, the inverted guard with the comparison nested, and if/else forms are the same thing."""
+    from .common import decision_list
     params = m.params
     if len(params) != 2:
         return "unknown", "signature"
     other = params[1]
-    body = m.node.body
-    last = body[-1]
-    if len(body) == 1 and isinstance(last, ast.Return):
-        t = norm(last.value)
+    dl = decision_list(m.node)
+    if not dl:
+        return "unknown", "not a decision list"
+    if len(dl) == 1 and not dl[0][0]:
+        t = norm(dl[0][1])
         if t in (f"self is {other}", f"{other} is self"):
             return "identity", ""
         if t == f"{other} is NULL":
             return "identity", "singleton"
-    guard = body[0]
-    if isinstance(guard, ast.If) and len(guard.body) == 1 and isinstance(guard.body[0], ast.Return) \
-            and norm(guard.body[0].value) == "False":
-        g = norm(guard.test)
-        if g == f"not isinstance({other}, {cls.name})":
-            if isinstance(last, ast.Return) and isinstance(last.value, ast.Compare) and len(last.value.ops) == 1 \
-                    and isinstance(last.value.ops[0], ast.Eq):
-                l, r = norm(last.value.left), norm(last.value.comparators[0])
-                if l.startswith("self.") and r == other + l[4:]:
-                    return "structural", l[5:]
-                if l.startswith("str(self.") and r == f"str({other}.{l[9:]}":
-                    return "rendered", l[9:-1]
-            return "unknown", "body after isinstance guard"
-        if g == f"not {other}.isNumerical()":
+    for atom, kind in ((f"isinstance({other}, {cls.name})", "structural"), (f"{other}.isNumerical()", "numeric")):
+        neg = [r for facts, r in dl if (atom, False) in facts]
+        pos = [r for facts, r in dl if (atom, True) in facts]
+        if not neg or not pos or len(neg) + len(pos) != len(dl):
+            continue
+        if not all(norm(r) == "False" for r in neg):
+            return "unknown", f"a value outside the kind guard `{atom}` is not simply unequal"
+        if kind == "numeric":
             return "numeric", ""
+        if len(pos) == 1 and isinstance(pos[0], ast.Compare) and len(pos[0].ops) == 1 \
+                and isinstance(pos[0].ops[0], ast.Eq):
+            l, r = norm(pos[0].left), norm(pos[0].comparators[0])
+            if l.startswith(other + "."):
+                l, r = r, l
+            if l.startswith("self.") and r == other + l[4:]:
+                return "structural", l[5:]
+            if l.startswith("str(self.") and r == f"str({other}.{l[9:]}":
+                return "rendered", l[9:-1]
+        return "unknown", "body after isinstance guard"
     return "unknown", "no recognised guard"
 
 
